@@ -191,6 +191,291 @@ sys.exit(1 if bad else 0)
 '''
 
 
+
+# =================================================================================== metadata states and WF
+RETKEY = "datashard.snapshot.retention-count"
+
+
+def opt_z(v):
+    """Optional[int] value -> (isnone: z3 Bool, value: z3 Int)"""
+    if v is None:
+        return z3.BoolVal(True), z3.IntVal(0)
+    if isinstance(v, SOpt):
+        return v.isnone, pyops.int_z(v.val)
+    return z3.BoolVal(False), pyops.int_z(v)
+
+
+class MD:
+    """an arbitrary TableMetadata (the parts the snapshot mutators touch)"""
+
+    def __init__(self, h: H, label="base"):
+        c = h.ctx
+        self.snaps = F.fresh_reflist(c, "Snapshot", f"{label}_snapshots")
+        self.log = F.fresh_reflist(c, "HistoryEntry", f"{label}_log")
+        self.cur = SOpt(c.fresh_bool(f"{label}_current_none"), SInt(c.fresh_int(f"{label}_current")))
+        self.lsn = SInt(c.fresh_int(f"{label}_last_sequence_number"))
+        self.ret = SOpt(c.fresh_bool("retention_unset"), SStr(c.fresh_str("retention_raw")))
+        self.schema_id = SInt(c.fresh_int("schema_id"))
+        self.obj = SObj("TableMetadata", {"snapshots": self.snaps, "snapshot_log": self.log, "current_snapshot_id": self.cur,
+                                          "last_sequence_number": self.lsn, "properties": PDict({RETKEY: self.ret}),
+                                          "current_schema_id": self.schema_id}, label=label)
+        for nm, t in ((f"{label}_current_none", self.cur.isnone), (f"{label}_current", self.cur.val.z), (f"{label}_last_sequence_number", self.lsn.z)):
+            h.report(nm, t)
+
+
+def state_of(ctx, mobj: SObj):
+    sn, lg = mobj.fields["snapshots"], mobj.fields["snapshot_log"]
+    if not (F.is_reflist(sn) and F.is_reflist(lg)):
+        raise AssertionError("metadata lists are no longer T-forest lists")
+    cs, cl = sn.fields["cls"], lg.fields["cls"]
+    arrs = ctx.ghost["heap"]
+    return {"snaps": sn, "log": lg, "cs": cs, "cl": cl,
+            "smem": sn.fields["mem"], "spos": sn.fields["dom"]["pos"], "lmem": lg.fields["mem"], "lpos": lg.fields["dom"]["pos"],
+            "pn": arrs[(cs, "parent_snapshot_id", "none")], "pv": arrs[(cs, "parent_snapshot_id")], "ts": arrs[(cs, "timestamp_ms")],
+            "seq": arrs[(cs, "sequence_number")], "lsid": arrs[(cl, "snapshot_id")],
+            "cur": opt_z(mobj.fields["current_snapshot_id"]), "lsn": pyops.int_z(mobj.fields["last_sequence_number"])}
+
+
+def wf(st, G, entry_of, S, L):
+    """WF clauses instantiated at snapshot terms S and log-entry terms L -> [(name, formula)]"""
+    sel = z3.Select
+    smem, spos, lmem, lpos = st["smem"], st["spos"], st["lmem"], st["lpos"]
+    pn, pv, ts, seq, lsid = st["pn"], st["pv"], st["ts"], st["seq"], st["lsid"]
+    cn, cv = st["cur"]
+    out = [("WF:CUR:current-snapshot-is-None-or-retained", z3.Or(cn, sel(smem, cv)))]
+    for i, s in enumerate(S):
+        m = sel(smem, s)
+        out.append(("WF:CUR:current-is-None-only-when-no-snapshot-is-retained", z3.Implies(m, z3.Not(cn))))
+        out.append(("WF:PARENT:parent-is-None/-1-or-a-retained-true-ancestor",
+                    z3.Implies(m, z3.Or(sel(pn, s), sel(pv, s) == -1, z3.And(sel(smem, sel(pv, s)), G(s, sel(pv, s)))))))
+        out.append(("WF:SEQ:sequence-number-within-last_sequence_number", z3.Implies(m, sel(seq, s) <= st["lsn"])))
+        e = entry_of(s)
+        out.append(("WF:LOG:every-retained-snapshot-has-a-log-entry", z3.Implies(m, z3.And(sel(lmem, e), sel(lsid, e) == s))))
+        for j, t in enumerate(S):
+            if i == j:
+                continue
+            both = z3.And(m, sel(smem, t), sel(spos, s) < sel(spos, t))
+            out.append(("WF:SEQ:sequence-numbers-strictly-increase-in-commit-order", z3.Implies(both, sel(seq, s) < sel(seq, t))))
+            out.append(("WF:TS-MONO:timestamps-never-decrease-in-commit-order", z3.Implies(both, sel(ts, s) <= sel(ts, t))))
+    for i, e in enumerate(L):
+        out.append(("WF:LOG:log-lists-only-retained-snapshots", z3.Implies(sel(lmem, e), sel(smem, sel(lsid, e)))))
+        for j, f in enumerate(L):
+            if i != j:
+                out.append(("WF:LOG:log-is-in-commit-order",
+                            z3.Implies(z3.And(sel(lmem, e), sel(lmem, f), sel(lpos, e) < sel(lpos, f)),
+                                       sel(spos, sel(lsid, e)) < sel(spos, sel(lsid, f)))))
+    return out
+
+
+class World:
+    """ghost symbols + witnesses of one harness"""
+
+    def __init__(self, h: H, n_snap=2, n_log=2):
+        c = h.ctx
+        self.h = h
+        self.G = z3.Function(c.fresh_name("TrueAncestor"), INT, INT, z3.BoolSort())
+        self.entry0 = z3.Function(c.fresh_name("entry_of"), INT, INT)
+        self.S = [z3.Int(f"witness_snapshot_{i}") for i in range(n_snap)]
+        self.L = [z3.Int(f"witness_log_entry_{i}") for i in range(n_log)]
+        for t in self.S + self.L:
+            h.report(str(t), t)
+
+    def know(self, st):
+        c = self.h.ctx
+        for t in self.S:
+            F.know(c, st["cs"], t)
+            F.know(c, st["cl"], self.entry0(t))
+        for e in self.L:
+            F.know(c, st["cl"], e)
+            F.know(c, st["cs"], z3.Select(st["lsid"], e))
+
+    def assume_wf(self, st, extra_S=(), extra_L=(), entry_of=None):
+        """WF(base) at every known term (call right before the postconditions: terms introduced during the run included)"""
+        c = self.h.ctx
+        S = list(self.S) + list(extra_S) + [t for t in F._terms(c, "Snapshot") if not any(t.eq(x) for x in list(self.S) + list(extra_S))]
+        L = list(self.L) + list(extra_L) + [t for t in F._terms(c, "HistoryEntry") if not any(t.eq(x) for x in list(self.L) + list(extra_L))]
+        S, L = S[:8], L[:8]
+        for nm, f in wf(st, self.G, entry_of or self.entry0, S, L):
+            c.assume(f)
+        # G is transitive (true ancestry = transitive closure of the commit-time parent links): instances over the terms
+        for a in S[:5]:
+            for b in S[:5]:
+                for d in S[:5]:
+                    c.assume(z3.Implies(z3.And(self.G(a, b), self.G(b, d)), self.G(a, d)))
+
+    def ensure_wf(self, st, entry_of, prefix=""):
+        for nm, f in wf(st, self.G, entry_of, self.S, self.L):
+            self.h.ensure(prefix + nm, f)
+
+
+def repoint_contract(world: World, log):
+    """callee contract of repoint_parents_to_surviving_ancestors, as proved by unit REPOINT with the transitive relation
+    instantiated by the ghost TrueAncestor (its precondition 'every pre-state link of all_snapshots is a TrueAncestor link' is
+    WF(base).PARENT)"""
+    def contract(I, fv, args, kwargs):
+        c = I.ctx
+        allr, kept = args[0], args[1]
+        if not (F.is_reflist(allr) and F.is_reflist(kept)) or allr.fields["cls"] != kept.fields["cls"]:
+            raise AssertionError("repoint contract: arguments are not lists of one object generation")
+        cls = kept.fields["cls"]
+        arrs = c.ghost["heap"]
+        amem, kmem = allr.fields["mem"], kept.fields["mem"]
+        pn0, pv0 = arrs[(cls, "parent_snapshot_id", "none")], arrs[(cls, "parent_snapshot_id")]
+        pn1, pv1 = c.fresh("parent_none_after", pn0.sort()), c.fresh("parent_after", pv0.sort())
+        arrs[(cls, "parent_snapshot_id", "none")], arrs[(cls, "parent_snapshot_id")] = pn1, pv1
+        log.append({"all": allr, "kept": kept, "amem": amem, "kmem": kmem, "pn0": pn0, "pv0": pv0})
+        terms = list(F._terms(c, "Snapshot"))
+        for t in terms:
+            # precondition instances (checked by the caller's harness at its witnesses): kept is a sub-list of all
+            n, v = z3.Select(pn1, t), z3.Select(pv1, t)
+            c.assume(z3.Implies(z3.Select(kmem, t), z3.Or(n, v == -1, z3.And(z3.Select(kmem, v), world.G(t, v)))))
+        return None
+    return contract
+
+
+# =================================================================================== _most_recent_snapshot_id
+def h_most_recent(h: H):
+    """REPOINT-CUR: None iff nothing is retained; otherwise the retained snapshot that was committed last (the last log entry
+    naming a retained snapshot; by WF.LOG that is the retained snapshot with the greatest commit position)."""
+    c = h.ctx
+    install(h)
+    W = World(h, n_snap=2, n_log=1)
+    md = MD(h, "metadata")
+    st0 = state_of(c, md.obj)
+    W.know(st0)
+    v = W.S[0]
+    ev = W.entry0(v)
+
+    def inv(I, env, it):
+        done = it["done"]
+        return [("REPOINT-CUR:inv:no-visited-(later)-log-entry-names-a-retained-snapshot",
+                 z3.Implies(z3.Select(done, x), z3.Not(z3.Select(st0["smem"], z3.Select(st0["lsid"], x)))))
+                for x in [ev] + ([it["elem"]] if "elem" in it else [])]
+    h.reg.loops[f"{SM}:SnapshotManager._most_recent_snapshot_id"] = {"*": LoopSpec(invariant=inv, name="log-backwards", skip=["entry"])}
+    W.assume_wf(st0)
+    out, val = h.run(f"{SM}:SnapshotManager._most_recent_snapshot_id", [md.obj])
+    W.assume_wf(st0)
+    h.ensure("REPOINT-CUR:never-raises", out == "ok", detail=repr(val) if out != "ok" else "")
+    if out != "ok":
+        return
+    rn, rv = opt_z(val)
+    sel = z3.Select
+    h.ensure("REPOINT-CUR:None-only-when-nothing-is-retained", z3.Implies(sel(st0["smem"], v), z3.Not(rn)))
+    h.ensure("REPOINT-CUR:result-is-a-retained-snapshot", z3.Or(rn, sel(st0["smem"], rv)))
+    h.ensure("REPOINT-CUR:result-is-the-most-recently-committed-retained-snapshot",
+             z3.Implies(z3.And(z3.Not(rn), sel(st0["smem"], v)), sel(st0["spos"], v) <= sel(st0["spos"], rv)))
+
+
+# =================================================================================== get_snapshot_by_timestamp
+def h_by_timestamp(h: H):
+    """BY-TS: the most recently committed retained snapshot whose timestamp is <= the requested time (None iff there is none)."""
+    c = h.ctx
+    install(h)
+    W = World(h, n_snap=2, n_log=0)
+    md = MD(h, "metadata")
+    st0 = state_of(c, md.obj)
+    W.know(st0)
+    mm = h.obj("MetadataManager")
+    sm = h.obj("SnapshotManager", metadata_manager=mm)
+    empty = {"v": False}
+
+    def get_all(I, fv, args, kwargs):
+        return md.snaps
+    h.reg.contracts[f"{SM}:SnapshotManager.get_all_snapshots"] = get_all
+    t = h.int("timestamp_ms")
+    v = W.S[0]
+    sel = z3.Select
+    cls = st0["cs"]
+    ts, smem, cpos = st0["ts"], st0["smem"], st0["spos"]
+
+    def tgt(env):
+        ok, x = env.lookup("target_snapshot")
+        if x is None:
+            return z3.BoolVal(True), z3.IntVal(0)
+        if isinstance(x, SOpt):
+            return x.isnone, x.val.z
+        return z3.BoolVal(False), x.z
+
+    def inv(I, env, it):
+        tn, tv = tgt(env)
+        sp = it["rl"].fields["dom"]["pos"]
+        res = [("BY-TS:inv:candidate-is-a-visited-retained-snapshot-not-newer-than-t",
+                z3.Or(tn, z3.And(sel(smem, tv), sel(ts, tv) <= t.z, sel(it["done"], tv))))]
+        for x in [v] + ([it["elem"]] if "elem" in it else []):
+            res.append(("BY-TS:inv:every-visited-snapshot-is-not-newer-than-t-and-not-after-the-candidate",
+                        z3.Implies(sel(it["done"], x), z3.And(sel(ts, x) <= t.z, z3.Not(tn), sel(sp, x) <= sel(sp, tv)))))
+        return res
+
+    def havoc(I, env, it):
+        env.vars["target_snapshot"] = SOpt(I.ctx.fresh_bool("target_none"), SRef(cls, I.ctx.fresh_int("target")))
+        F.know(I.ctx, cls, env.vars["target_snapshot"].val.z)
+    h.reg.loops[f"{SM}:SnapshotManager.get_snapshot_by_timestamp"] = {
+        "*": LoopSpec(invariant=inv, havoc=havoc, name="by-timestamp", skip=["target_snapshot", "snapshot"])}
+    W.assume_wf(st0)
+    out, val = h.run(f"{SM}:SnapshotManager.get_snapshot_by_timestamp", [sm, t])
+    W.assume_wf(st0)
+    h.ensure("BY-TS:never-raises", out == "ok", detail=repr(val) if out != "ok" else "")
+    if out != "ok":
+        return
+    if val is None:
+        rn, rv = z3.BoolVal(True), z3.IntVal(0)
+    elif isinstance(val, SOpt):
+        rn, rv = val.isnone, val.val.z
+    else:
+        rn, rv = z3.BoolVal(False), val.z
+    ok_v = z3.And(sel(smem, v), sel(ts, v) <= t.z)
+    h.ensure("BY-TS:None-only-when-no-retained-snapshot-is-old-enough", z3.Implies(ok_v, z3.Not(rn)))
+    h.ensure("BY-TS:result-is-retained-and-not-newer-than-requested", z3.Or(rn, z3.And(sel(smem, rv), sel(ts, rv) <= t.z)))
+    h.ensure("BY-TS:result-is-the-most-recently-committed-such-snapshot",
+             z3.Implies(z3.And(z3.Not(rn), ok_v), sel(cpos, v) <= sel(cpos, rv)))
+
+
+def _replay_lookup(ob):
+    return '''
+import sys, os, tempfile, shutil, time
+from datashard import create_table
+from datashard.data_structures import Schema
+import datashard.snapshot_manager as smod
+import datetime as _d
+bad = []
+root = tempfile.mkdtemp(prefix="pyvc_replay_")
+real = _d.datetime
+class FakeDT(real):
+    now_s = 2000.0
+    @classmethod
+    def now(cls, tz=None): return real.fromtimestamp(cls.now_s)
+try:
+    t = create_table(os.path.join(root, "t"), schema=Schema(schema_id=1, fields=[{"id": 1, "name": "a", "type": "long", "required": False}]))
+    smod.datetime = FakeDT
+    for i, now in enumerate([2000.0, 1900.0, 1900.0, 2100.0]):      # the clock steps back once, then stands still
+        FakeDT.now_s = now; t.append_records([{"a": i}])
+    smod.datetime = real
+    snaps = t.snapshot_manager.get_all_snapshots()
+    order = [s.snapshot_id for s in snaps]
+    for q in sorted({s.timestamp_ms for s in snaps} | {1_000_000, 1_950_000, 2_050_000, 3_000_000}):
+        got = t.snapshot_manager.get_snapshot_by_timestamp(q)
+        cands = [s for s in snaps if s.timestamp_ms <= q]
+        want = cands[-1].snapshot_id if cands else None       # most recently COMMITTED one (list order = commit order)
+        if (got.snapshot_id if got else None) != want: bad.append(("as-of", q, got and got.snapshot_id, want))
+    # deleting the current snapshot repoints to the most recently committed survivor
+    cur = t.metadata_manager.refresh().current_snapshot_id
+    t.snapshot_manager.delete_snapshot(cur)
+    m = t.metadata_manager.refresh()
+    if m.current_snapshot_id != order[-2]: bad.append(("repoint-current", m.current_snapshot_id, order[-2]))
+    for s in m.snapshots:
+        if t.snapshot_manager.get_snapshot_by_id(s.snapshot_id).snapshot_id != s.snapshot_id: bad.append(("by-id", s.snapshot_id))
+finally:
+    smod.datetime = real
+    shutil.rmtree(root, ignore_errors=True)
+print("replay snapshot lookup ->", bad[:4] or "ok")
+sys.exit(1 if bad else 0)
+'''
+
+
 UNITS = {
     "REPOINT/repoint_parents_to_surviving_ancestors": (h_repoint, [f"{SM}:repoint_parents_to_surviving_ancestors"], _replay_repoint),
+}
+UNITS_C09 = {
+    "REPOINT-CUR/_most_recent_snapshot_id": (h_most_recent, [f"{SM}:SnapshotManager._most_recent_snapshot_id"], _replay_lookup),
+    "BY-TS/get_snapshot_by_timestamp": (h_by_timestamp, [f"{SM}:SnapshotManager.get_snapshot_by_timestamp"], _replay_lookup),
 }
